@@ -3,6 +3,8 @@ package main
 import (
 	"bytes"
 	"context"
+	"crypto/ed25519"
+	crand "crypto/rand"
 	"crypto/sha256"
 	"encoding/json"
 	"fmt"
@@ -19,6 +21,7 @@ import (
 	"github.com/buildkite/go-pipeline/ordered"
 	"github.com/buildkite/go-pipeline/signature"
 	"github.com/buildkite/go-pipeline/warning"
+	"github.com/lestrrat-go/jwx/v2/jwk"
 	"gopkg.in/yaml.v3"
 )
 
@@ -111,6 +114,11 @@ func deepRep(v reflect.Value, b *strings.Builder, depth int) {
 }
 
 func repDigest(x any) string {
+	if ks, ok := x.(jwk.Set); ok {
+		// (an opaque object of another library: its published state is what it serialises to)
+		jb, err := json.Marshal(ks)
+		return digest("jwk.Set", string(jb), err)
+	}
 	var b strings.Builder
 	deepRep(reflect.ValueOf(x), &b, 0)
 	return digest(b.String())
@@ -130,6 +138,7 @@ type sharedObjects struct {
 	objs     map[string]any
 	pubRep   map[string]string
 	docPairs [][2]string // own work items: (source, name)
+	keyset   jwk.Set     // the verifiers' shared key set: the signer's public key and an unrelated key WITHOUT a key id
 }
 
 // tombstoneMap builds an ordered map whose backing storage carries tombstones
@@ -226,9 +235,24 @@ func buildShared(seed int64, nmaps, ndocs int) *sharedObjects {
 	}
 	s.objs["pipeline"] = s.pipe
 	s.objs["env"] = s.env
+	// a hand-written key set: next to the signer's public key (which carries a key id) an unrelated one that has none
+	s.keyset = jwk.NewSet()
+	if up, _, err := ed25519.GenerateKey(crand.Reader); err == nil {
+		if uk, err := jwk.FromRaw(up); err == nil {
+			uk.Set(jwk.AlgorithmKey, "EdDSA")
+			s.keyset.AddKey(uk)
+		}
+	}
+	s.keyset.AddKey(getKey(s.keyAlg, "K1").pub)
+	if s.keyset.Len() != 2 {
+		fatal("c19: could not build the shared key set")
+	}
+	s.objs["keyset"] = s.keyset
 	for i := 0; i < ndocs; i++ {
 		g := newDocGen(rng)
-		g.noUnknown, g.noSig, g.typed = true, true, false
+		// (own documents spell out `type:` on some steps: in the concurrent phase these are the FIRST typed steps the
+		// process parses - nothing sequential has warmed up whatever the parser builds on first use)
+		g.noUnknown, g.noSig, g.typed = true, true, true
 		s.docPairs = append(s.docPairs, [2]string{string(utf8JSON(g.pipeline())), fmt.Sprintf("doc%d", i)})
 	}
 	for n := range s.objs {
@@ -303,6 +327,15 @@ func (s *sharedObjects) observerOps() []c19Op {
 			var b strings.Builder
 			for _, c := range s.cmds {
 				err := signature.Verify(ctx, c.Signature, keySetFor(s.keyAlg, "signer"), &signature.CommandStepWithInvariants{CommandStep: *c, RepositoryURL: s.repo}, signature.WithEnv(s.env))
+				fmt.Fprintf(&b, "%v;", err == nil)
+			}
+			return digest(b.String())
+		}},
+		c19Op{"VerifySharedKeys", "keyset", func() string {
+			// verification READS the key set it is given
+			var b strings.Builder
+			for _, c := range s.cmds {
+				err := signature.Verify(ctx, c.Signature, s.keyset, &signature.CommandStepWithInvariants{CommandStep: *c, RepositoryURL: s.repo}, signature.WithEnv(s.env))
 				fmt.Fprintf(&b, "%v;", err == nil)
 			}
 			return digest(b.String())
